@@ -203,6 +203,10 @@ func (s *MultiEventSyncer) handlePotentialReorg(ctx context.Context, header *typ
 	}
 
 	toBlock := status.BlockNumber - int64(numReorgedBlocks)
+	// never go back beyond the block syncing started after: earlier blocks have not been synced
+	if toBlock < int64(s.SyncStartBlockNumber) {
+		toBlock = int64(s.SyncStartBlockNumber)
+	}
 	log.Info().
 		Int("reorg-depth", numReorgedBlocks).
 		Int64("rollback-to-block-number", toBlock).
